@@ -325,6 +325,12 @@ pub fn run_random(rec: &mut Rec, seed: u64, run: u64, nops: usize, stable: bool)
                 let d: [u128; 2] = if total == 0 {
                     [gen::log_uniform(&mut r, cfg.scale[0] / 8 + 1, cfg.scale[0]),
                      gen::log_uniform(&mut r, cfg.scale[1] / 8 + 1, cfg.scale[1])]
+                } else if stable && r.gen_range(0..6) == 0 {
+                    // far larger than the pool and (nearly) one-sided
+                    let side = r.gen_range(0..2usize);
+                    let mut d = [r.gen_range(1..3u128), r.gen_range(1..3u128)];
+                    d[side] = gen::log_uniform(&mut r, res[side].max(1), (1u128 << 100).max(res[side]));
+                    d
                 } else {
                     match r.gen_range(0..4) {
                         0 => [gen::amount(&mut r, res[0].max(1)), gen::amount(&mut r, res[1].max(1))],
